@@ -91,6 +91,59 @@ pub fn corpus() -> Vec<String> {
     c
 }
 
+/// Texts that are parametric in one size: nesting depth, number of items, length of an atom / number.
+pub fn scale_inputs(thorough: bool) -> Vec<String> {
+    let mut sizes: Vec<usize> = vec![4, 5, 7, 8, 9, 15, 16, 17, 20, 21, 31, 32, 33, 40, 41, 63, 64, 65, 100, 101, 127, 128, 129];
+    if thorough {
+        sizes.extend([255, 256, 257, 300, 511, 512, 513, 1000]);
+    }
+    let mut out = vec![];
+    for &n in &sizes {
+        let rep = |s: &str| s.repeat(n);
+        // nesting
+        out.push(format!("p({}a{})", rep("f("), rep(")")));
+        out.push(format!("p({}a{})", rep("["), rep("]")));
+        out.push(format!("{}a{}", rep("["), rep("]")));
+        out.push(format!("p({}a{})", "f([".repeat(n), "])".repeat(n)));
+        out.push(format!("h($X) :- p({}$X{}).", rep("f("), rep(")")));
+        out.push(format!("h($X) :- q({}$X{}), r.", rep("["), rep("]")));
+        out.push(format!("h($X) :- {}p($X){}.", rep("("), rep(")")));
+        out.push(format!("h($X) :- {}p($X){}.", rep("not("), rep(")")));
+        out.push(format!("$X = {}1{}", rep("f("), rep(")")));
+        // many items
+        let items = |f: &dyn Fn(usize) -> String, sep: &str| (1..=n).map(f).collect::<Vec<_>>().join(sep);
+        out.push(format!("p({})", items(&|i| i.to_string(), ", ")));
+        out.push(format!("[{}]", items(&|i| format!("a{}", i), ", ")));
+        out.push(format!("[{} | $T]", items(&|i| format!("$V{}", i), ", ")));
+        out.push(format!("h($X) :- {}.", items(&|i| format!("p{}({})", i, i), ", ")));
+        out.push(format!("h($X) :- {}.", items(&|i| format!("p{}($X)", i), "; ")));
+        out.push(format!("h($X) :- {}.", items(&|i| format!("$V{} = {}", i, i), ", ")));
+        out.push(format!("$X = add({})", items(&|i| i.to_string(), ", ")));
+        out.push(format!("print({})", items(&|_| "%s".to_string(), "")));
+        // long tokens
+        out.push(format!("p({})", rep("a")));
+        out.push(format!("p(${})", rep("X")));
+        out.push(format!("p({})", rep("9")));
+        out.push(format!("p(1.{})", rep("5")));
+        out.push(format!("p(\"{}\")", rep("a b")));
+        out.push(format!("{}(a)", rep("f")));
+        out.push(format!("p({}a)", rep("\\,")));
+        out.push(format!("p(a){}", rep(" ")));
+        out.push(format!("h($X) :- p($X). % {}", rep("c")));
+    }
+    out
+}
+
+/// A few long valid texts for the single-edit sweep.
+pub fn long_corpus() -> Vec<String> {
+    vec![
+        "p1(1), p2(2), p3(3), p4(4), p5(5), p6(6), p7(7), p8(8), p9(9)".to_string(),
+        "h($X, $Y) :- p1($X, a), p2([$X, $Y | $T], f(g($X))), ($X = 1; $Y = 2), not(q($X)), $Z = $X + $Y, r($Z).".to_string(),
+        "[alpha, beta, gamma(1, 2.5), [delta, [epsilon]], $Tail, \"two words\", f(g(h(i(j)))) | $Rest]".to_string(),
+        "grandfather($X, $Y) :- father($X, $Z), father($Z, $Y); father($X, $Z), mother($Z, $Y).".to_string(),
+    ]
+}
+
 fn edits1(s: &str, alphabet: &[&str]) -> Vec<String> {
     let cs: Vec<char> = s.chars().collect();
     let mut out = vec![];
@@ -207,6 +260,45 @@ pub fn worker_c18(tier: &str) {
                 continue;
             }
             run_input(&mut w, my, &e, "corpus-edit-1");
+        }
+    }
+    // scale: one size parameter at a time (nesting depth, number of items, length), at the sizes where a
+    // width or capacity typically overflows; every text also with its last / first / middle character
+    // removed and with an unbalanced bracket at the end
+    for s in scale_inputs(tier == "thorough") {
+        let cs: Vec<char> = s.chars().collect();
+        let n = cs.len();
+        let mut variants: Vec<String> = vec![s.clone()];
+        if n > 2 {
+            for cut in [0, n / 2, n - 2, n - 1] {
+                let mut v = cs.clone();
+                v.remove(cut);
+                variants.push(v.iter().collect());
+            }
+            variants.push(format!("{})", s));
+            variants.push(format!("{}]", s));
+            variants.push(format!("{}, ", s));
+            variants.push(format!("{}\\", s));
+            variants.push(format!("{}\"", s));
+        }
+        for e in variants {
+            let my = idx;
+            idx += 1;
+            if !w.mine(my) {
+                continue;
+            }
+            run_input(&mut w, my, &e, "scale");
+        }
+    }
+    // long valid texts: every single edit (a fault at every distance from either end)
+    for c in long_corpus() {
+        for e in edits1(&c, &["(", ")", "[", "]", ",", "\\", "\"", " ", "$", "|", ".", "=", "é"]) {
+            let my = idx;
+            idx += 1;
+            if !w.mine(my) {
+                continue;
+            }
+            run_input(&mut w, my, &e, "long-corpus-edit-1");
         }
     }
     // double edits at nearby positions (thorough)
